@@ -903,7 +903,7 @@ func (r *Runtime) typedArrayProto_map(call FunctionCall) Value {
 				fc.Arguments[0] = _undefined
 			}
 			fc.Arguments[1] = intToValue(int64(i))
-			dst.typedArray.set(dst.offset+i, callbackFn(fc))
+			dst._putIdx(i, callbackFn(fc))
 		}
 		return dst.val
 	}
@@ -1015,6 +1015,9 @@ func (r *Runtime) typedArrayProto_set(call FunctionCall) Value {
 					src.viewedArrayBuf.data[src.offset*src.elemSize:(src.offset+srcLen)*src.elemSize])
 			} else {
 				checkTypedArrayMixBigInt(src.defaultCtor, ta.defaultCtor)
+				// reading the constructors' 'name' may run user code
+				ta.viewedArrayBuf.ensureNotDetached(true)
+				src.viewedArrayBuf.ensureNotDetached(true)
 				curSrc := uintptr(unsafe.Pointer(&src.viewedArrayBuf.data[src.offset*src.elemSize]))
 				endSrc := curSrc + uintptr(srcLen*src.elemSize)
 				curDst := uintptr(unsafe.Pointer(&ta.viewedArrayBuf.data[(ta.offset+targetOffset)*ta.elemSize]))
@@ -1061,10 +1064,7 @@ func (r *Runtime) typedArrayProto_set(call FunctionCall) Value {
 				panic(r.newError(r.getRangeError(), "Source is too large"))
 			}
 			for i := 0; i < srcLen; i++ {
-				val := nilSafe(srcObj.self.getIdx(valueInt(i), nil))
-				if ta.isValidIntegerIndex(targetOffset + i) {
-					ta.typedArray.set(ta.offset+targetOffset+i, val)
-				}
+				ta._putIdx(targetOffset+i, nilSafe(srcObj.self.getIdx(valueInt(i), nil)))
 			}
 		}
 		return _undefined
@@ -1326,7 +1326,7 @@ func (r *Runtime) typedArray_from(call FunctionCall) Value {
 		ta := r.typedArrayCreate(c, intToValue(int64(len(values))))
 		if mapFc == nil {
 			for idx, val := range values {
-				ta.typedArray.set(idx, val)
+				ta._putIdx(idx, val)
 			}
 		} else {
 			fc := FunctionCall{
@@ -1345,7 +1345,7 @@ func (r *Runtime) typedArray_from(call FunctionCall) Value {
 	ta := r.typedArrayCreate(c, intToValue(int64(length)))
 	if mapFc == nil {
 		for i := 0; i < length; i++ {
-			ta.typedArray.set(i, nilSafe(source.self.getIdx(valueInt(i), nil)))
+			ta._putIdx(i, nilSafe(source.self.getIdx(valueInt(i), nil)))
 		}
 	} else {
 		fc := FunctionCall{
@@ -1355,7 +1355,7 @@ func (r *Runtime) typedArray_from(call FunctionCall) Value {
 		for i := 0; i < length; i++ {
 			idx := valueInt(i)
 			fc.Arguments[0], fc.Arguments[1] = source.self.getIdx(idx, nil), idx
-			ta.typedArray.set(i, mapFc(fc))
+			ta._putIdx(i, mapFc(fc))
 		}
 	}
 	return ta.val
@@ -1364,7 +1364,7 @@ func (r *Runtime) typedArray_from(call FunctionCall) Value {
 func (r *Runtime) typedArray_of(call FunctionCall) Value {
 	ta := r.typedArrayCreate(r.toObject(call.This), intToValue(int64(len(call.Arguments))))
 	for i, val := range call.Arguments {
-		ta.typedArray.set(i, val)
+		ta._putIdx(i, val)
 	}
 	return ta.val
 }
@@ -1412,7 +1412,7 @@ func (r *Runtime) typedArrayFrom(ctor, items *Object, mapFn, thisValue Value, ta
 		ta := r.allocateTypedArray(ctor, len(values), taCtor, proto)
 		if mapFc == nil {
 			for idx, val := range values {
-				ta.typedArray.set(idx, val)
+				ta._putIdx(idx, val)
 			}
 		} else {
 			fc := FunctionCall{
@@ -1422,7 +1422,7 @@ func (r *Runtime) typedArrayFrom(ctor, items *Object, mapFn, thisValue Value, ta
 			for idx, val := range values {
 				fc.Arguments[0], fc.Arguments[1] = val, intToValue(int64(idx))
 				val = mapFc(fc)
-				ta.typedArray.set(idx, val)
+				ta._putIdx(idx, val)
 			}
 		}
 		return ta.val
@@ -1431,7 +1431,7 @@ func (r *Runtime) typedArrayFrom(ctor, items *Object, mapFn, thisValue Value, ta
 	ta := r.allocateTypedArray(ctor, length, taCtor, proto)
 	if mapFc == nil {
 		for i := 0; i < length; i++ {
-			ta.typedArray.set(i, nilSafe(items.self.getIdx(valueInt(i), nil)))
+			ta._putIdx(i, nilSafe(items.self.getIdx(valueInt(i), nil)))
 		}
 	} else {
 		fc := FunctionCall{
@@ -1441,7 +1441,7 @@ func (r *Runtime) typedArrayFrom(ctor, items *Object, mapFn, thisValue Value, ta
 		for i := 0; i < length; i++ {
 			idx := valueInt(i)
 			fc.Arguments[0], fc.Arguments[1] = items.self.getIdx(idx, nil), idx
-			ta.typedArray.set(i, mapFc(fc))
+			ta._putIdx(i, mapFc(fc))
 		}
 	}
 	return ta.val
@@ -1500,6 +1500,8 @@ func (r *Runtime) _newTypedArrayFromTypedArray(src *typedArrayObject, newTarget 
 		return dst.val
 	} else {
 		checkTypedArrayMixBigInt(src.defaultCtor, newTarget)
+		// reading the constructors' 'name' may run user code
+		src.viewedArrayBuf.ensureNotDetached(true)
 	}
 	dst.length = l
 	for i := 0; i < l; i++ {
